@@ -9,10 +9,12 @@ import sys
 
 HERE = os.path.dirname(os.path.dirname(os.path.abspath(__file__)))
 sys.path.insert(0, HERE)
-from sa.localnames import TABLE, bindings, function_keys  # noqa: E402
+from sa.localnames import TABLE, bindings, function_keys, module_globals  # noqa: E402
 
 repo = os.environ.get("ODXTOOLS_REPO", "/repo")
 out = {}
+functions = []
+globs = {}
 for d, dotted in ((os.path.join(repo, "odxtools"), "odxtools"),
                   (os.path.join(repo, "examples"), "examples")):
     for root, dirs, files in os.walk(d):
@@ -26,9 +28,12 @@ for d, dotted in ((os.path.join(repo, "odxtools"), "odxtools"),
                 sub = sub[:-len("__init__")].rstrip(".")
             name = dotted + ("." + sub if sub else "")
             tree = ast.parse(open(path, encoding="utf-8").read())
+            globs[name] = sorted(set(module_globals(tree)))
             for key, f in function_keys(tree, name):
+                functions.append(key)
                 b = bindings(f)
                 if b:
                     out[key] = [[n, s] for n, s in b]
-json.dump(out, open(TABLE, "w"), indent=0, sort_keys=True)
-print(len(out), "functions with locals recorded in", TABLE)
+json.dump({"locals": out, "functions": sorted(functions), "globals": globs}, open(TABLE, "w"),
+          indent=0, sort_keys=True)
+print(len(functions), "functions,", len(out), "with locals, recorded in", TABLE)
